@@ -40,6 +40,7 @@ func main() {
 	workers := flag.Int("workers", 16, "worker goroutines")
 	noReplay := flag.Bool("noreplay", false, "do not replay counterexamples (debug)")
 	solverLog := flag.String("solverlog", "", "write the SMT-LIB transcript of worker 0 here")
+	maxWall := flag.Int("maxwall", 3000, "wall-clock cap in seconds for the whole run (0 = none); reaching it exits 2")
 	flag.Parse()
 
 	if *replay != "" {
@@ -50,6 +51,14 @@ func main() {
 		os.Exit(2)
 	}
 	seed, _ := strconv.Atoi(os.Getenv("VERIF_SEED"))
+	// wall-clock cap: an exploration that does not end (e.g. the code under test spins and every
+	// iteration forks) ends the run as a broken check (exit 2) - never as a pass, never as a hang
+	if *maxWall > 0 {
+		time.AfterFunc(time.Duration(*maxWall)*time.Second, func() {
+			fmt.Printf("  INCOMPLETE %s: wall-clock cap of %d s reached before the exploration ended; nothing is claimed\n", *prop, *maxWall)
+			os.Exit(2)
+		})
+	}
 	os.Exit(runProperty(*prop, *tier, *only, seed, *workers, *verbose, *noReplay, *solverLog))
 }
 
